@@ -44,6 +44,8 @@ type C06Body struct {
 	// configuration); 0 = fault-free configuration with the exact round-trip oracle.
 	FaultEvery int    `json:"fault_every"`
 	FaultSeed  uint64 `json:"fault_seed"`
+	// Mmap: archives opened from disk read their index through the memory-mapped reader
+	Mmap bool `json:"mmap,omitempty"`
 }
 
 func (C06) Generate(seed uint64, tier string) *core.Scenario {
@@ -51,6 +53,7 @@ func (C06) Generate(seed uint64, tier string) *core.Scenario {
 	b := C06Body{}
 	b.MemTable = uint64([]int{512, 2 << 10, 16 << 10}[r.Intn(3)])
 	b.MaxTab = []int{2, 3, 4, 256}[r.Intn(4)]
+	b.Mmap = r.Chance(1, 2)
 	if r.Chance(1, 2) {
 		b.FaultEvery = []int{6, 15, 40}[r.Intn(3)]
 		b.FaultSeed = r.Uint64()
@@ -69,6 +72,24 @@ func (C06) Generate(seed uint64, tier string) *core.Scenario {
 		}
 	}
 	nops := r.Range(6, 40)
+	if len(coll) >= 4 && r.Chance(1, 2) {
+		// directed: every chosen pair of addresses that share their first 8 bytes goes into one commit
+		// with few other chunks, and the store is collected into an archive at once: runs of equal
+		// prefixes at the top, the bottom and the middle of a small index, read through the reader an
+		// archive opened from disk gets
+		cs := append([]int(nil), coll...)
+		for i := r.Intn(5); i > 0; i-- {
+			b.Chunks = append(b.Chunks, ChunkSpec{Size: r.Intn(min(200, maxSz)), Fill: r.Uint64(), Comp: r.Chance(1, 2)})
+			cs = append(cs, len(b.Chunks)-1)
+		}
+		b.Ops = append(b.Ops, C06Op{Kind: "put", C: cs})
+		b.Chunks = append(b.Chunks, ChunkSpec{Size: 6, Fill: r.Uint64(), Kids: cs})
+		root := len(b.Chunks) - 1
+		last = root
+		durable = append(durable, append(cs, root)...)
+		b.Ops = append(b.Ops, C06Op{Kind: "put", C: []int{root}}, C06Op{Kind: "commit", Root: root}, C06Op{Kind: "gc-archive"})
+		nops += 4
+	}
 	for len(b.Ops) < nops {
 		switch x := r.Intn(100); {
 		case x < 45:
@@ -136,6 +157,12 @@ func (C06) Execute(t *testing.T, sc *core.Scenario) *core.Result {
 		return res
 	}
 	ctx := context.Background()
+	oldMmap := nbs.DsimMmapArchiveIndexes
+	nbs.DsimMmapArchiveIndexes = b.Mmap
+	defer func() { nbs.DsimMmapArchiveIndexes = oldMmap }()
+	if b.Mmap {
+		res.Probe("knob:mmap-archive-indexes")
+	}
 	root := newScratch("c06")
 	sos, err := simos.New(root)
 	if err != nil {
